@@ -147,6 +147,19 @@ def c12_nan():
     return res
 
 
+def c12_coincidence():
+    import datetime
+
+    from flow.record import RecordDescriptor
+
+    C = RecordDescriptor("c12/x", [("string", "a"), ("string", "stringb")])
+    D = RecordDescriptor("c12/x", [("string", "astring"), ("string", "b")])
+    T = datetime.datetime(2020, 1, 1, tzinfo=datetime.timezone.utc)
+    c, d = C("1", "2", _generated=T), D("1", "2", _generated=T)
+    bad = (C != D) and (c == d or d == c)
+    return {"violates": bool(bad), "detail": f"descriptors equal: {C == D}; records of the two descriptors compare equal: {c == d} / {d == c}" if bad else None}
+
+
 def c12_scope(prior, body_raises, nested):
     from flow.record import base
 
@@ -217,4 +230,4 @@ def c12_random_laws(seed, n):
     return {"violates": False, "cases": cases}
 
 
-CALLS = {"c12_laws": c12_laws, "c12_type": c12_type, "c12_scope": c12_scope, "c12_nan": c12_nan, "c12_random_laws": c12_random_laws}
+CALLS = {"c12_coincidence": c12_coincidence, "c12_laws": c12_laws, "c12_type": c12_type, "c12_scope": c12_scope, "c12_nan": c12_nan, "c12_random_laws": c12_random_laws}
